@@ -17,22 +17,19 @@ WORKSPACE_CRATES = (
 
 # Calls through which a value's identity is preserved (first argument flows to the result).
 TRANSPARENT = (
-    "std::clone::Clone>::clone", "std::clone::Clone::clone",
-    "std::ops::Deref>::deref", "std::ops::DerefMut>::deref_mut",
-    "std::ops::Deref::deref", "std::ops::DerefMut::deref_mut",
-    "std::convert::Into>::into", "std::convert::From>::from", "std::convert::Into::into",
-    "std::convert::AsRef>::as_ref", "std::convert::AsMut>::as_mut",
-    "std::borrow::Borrow>::borrow", "std::borrow::BorrowMut>::borrow_mut",
-    "std::ops::Index>::index", "std::ops::IndexMut>::index_mut",
-    "std::option::Option::unwrap", "std::option::Option::expect", "std::result::Result::unwrap",
-    "std::result::Result::expect", "std::option::Option::as_ref", "std::option::Option::as_mut",
-    "std::option::Option::as_deref", "std::option::Option::copied", "std::option::Option::cloned",
-    "std::ops::Try>::branch", "std::vec::Vec::as_slice", "std::vec::Vec::as_mut_slice",
-    "std::iter::IntoIterator>::into_iter", "std::slice::<impl [T]>::iter", "std::iter::Iterator::copied",
-    "std::iter::Iterator::cloned", "std::boxed::Box::new", "std::sync::Arc::new", "std::option::Option::unwrap_or_default",
-    "std::borrow::ToOwned>::to_owned", "smallvec::SmallVec::as_slice", "std::slice::<impl [T]>::to_vec",
-    "std::mem::take", "std::option::Option::take", "std::iter::Iterator::enumerate",
-    "std::option::Option::unwrap_unchecked",
+    "core::clone::Clone>::clone", "core::clone::Clone::clone",
+    "Deref>::deref", "DerefMut>::deref_mut", "Deref::deref", "DerefMut::deref_mut",
+    "core::convert::Into>::into", "core::convert::From>::from", "core::convert::Into::into",
+    "AsRef>::as_ref", "AsMut>::as_mut", "Borrow>::borrow", "BorrowMut>::borrow_mut",
+    "Index>::index", "IndexMut>::index_mut",
+    "core::option::Option::unwrap", "core::option::Option::expect", "core::result::Result::unwrap",
+    "core::result::Result::expect", "core::option::Option::as_ref", "core::option::Option::as_mut",
+    "core::option::Option::as_deref", "core::option::Option::copied", "core::option::Option::cloned",
+    "Try>::branch", "alloc::vec::Vec::as_slice", "alloc::vec::Vec::as_mut_slice",
+    "IntoIterator>::into_iter", "[T]::iter", "Iterator::copied", "Iterator::cloned", "Iterator::enumerate",
+    "alloc::boxed::Box::new", "alloc::sync::Arc::new", "core::option::Option::unwrap_or_default",
+    "ToOwned>::to_owned", "smallvec::SmallVec::as_slice", "[T]::to_vec",
+    "core::mem::take", "core::option::Option::take", "core::option::Option::unwrap_unchecked",
 )
 
 
